@@ -10,7 +10,23 @@ int asmline_main(int argc, char **argv);
 
 #pragma clang diagnostic ignored "-Wdeprecated-declarations"
 
+#include <pthread.h>
+
 namespace lib {
+
+static int g_racy_counter = 0;
+static void *racy_thread(void *) {
+  for (int i = 0; i < 1000; i++) g_racy_counter++;
+  return nullptr;
+}
+int race_canary() {
+  pthread_t a, b;
+  pthread_create(&a, nullptr, racy_thread, nullptr);
+  pthread_create(&b, nullptr, racy_thread, nullptr);
+  pthread_join(a, nullptr);
+  pthread_join(b, nullptr);
+  return g_racy_counter;
+}
 
 inst_t create(uint8_t *buf, int len) { return (inst_t)asm_create_instance(buf, len); }
 int destroy(inst_t a) { return asm_destroy_instance((assemblyline_t)a); }
